@@ -576,7 +576,7 @@ def obligations(tier):
         Obl("names.witness", MOD, "h_names_w", slices=[{"nf": 1, "nn": 1, "ne": 1}, {"nf": 1, "nn": 0, "ne": 1}], budget_s=120, per_path_s=60, witness=True),
         Obl("listed", MOD, "h_listed", slices=_name_slices(tier), budget_s=600 if q else 2400, per_path_s=60,
             desc="FileInfo.filename of a stored file resolves to the same key again", bound="exact lengths per slice"),
-        Obl("codec.names", MOD, "h_codec_names", slices=[{"L": n} for n in ((1, 2, 63, 64, 65, 128, 256) if q else (1, 2, 3, 31, 32, 33, 63, 64, 65, 127, 128, 129, 255, 256, 257, 512))],
+        Obl("codec.names", MOD, "h_codec_names", slices=[{"L": n} for n in ((1, 2, 63, 64, 65, 128, 256) if q else (1, 2, 3, 31, 32, 33, 63, 64, 65, 127, 128, 129, 255, 256, 257))],
             budget_s=600, per_path_s=120, desc="a folder / name / extension of L characters survives write_dirfile -> load_dirfile (tree strings of any length)",
             bound="L concrete per slice (around powers of two); which component and the fill character are solver-chosen"),
         Obl("codec.names.witness", MOD, "h_codec_names_w", slices=[{"L": 64}], budget_s=300, per_path_s=120, witness=True),
